@@ -411,6 +411,8 @@ def lattice_deck(rnd, dims=2, nsym=3, variant='array', skew=False):
             pair.reverse()
         leaves += pair
     lat = dk.Cell(2, ('and',) + tuple(leaves), imp=1, u=5, lat=1)
+    if rnd.random() < 0.3:
+        lat.trcl = rand_tr(rnd, 'lt', pre, budget=bud, rot=True)       # the lattice cell itself may carry a TRCL
     # index ranges
     ranges = []
     for k in range(dims):
